@@ -126,7 +126,7 @@ def run(rep, tier, seed):
     rep.assumptions = [
         "theorems are about the models; the implementation is tied on generated programs",
         "well-formed functions: formal inputs and outputs pairwise distinct, a function never assigns its formal inputs (stated at the top of top_down_inter_analyzer.hpp), callsites match their callee's signature and have pairwise distinct lhs variables",
-        "mirror: analyze_recursive_functions=false, thresholds off, any max_call_contexts / reuse mode / delay / descending iterations; analyze_recursive_functions=true and thresholds are covered by the concrete oracle and, where a certificate can be built, by the verified checker on the implementation's output (streams td-params: rejections are counted, not reported)",
+        "mirror: thresholds off, any reuse mode / delay / descending iterations; analyze_recursive_functions=false with any max_call_contexts (coq/Ana/InterTD.v, streams td-nonrec, td-rec, td-mcc); analyze_recursive_functions=true with max_call_contexts=UINT_MAX (coq/Ana/InterTDRec.v: function fixpoints over the heads of the call graph WTO cycles, nested cycles and cycles entered through a non-head member included; stream td-rec1, exact agreement required on every case, model proved sound in Props/Properties_C09_rec.v); thresholds, and analyze_recursive_functions=true combined with thresholds / bounded calling contexts, are covered by the concrete oracle and, where a certificate can be built, by the verified checker on the implementation's output (stream td-params: rejections are counted, not reported)",
         "max_call_contexts < UINT_MAX: joined calling contexts are not summaries (C09_joined_contexts_refuted, known finding): results of such runs are compared with the model and searched by the oracle, not validated",
         "domains other than intervals: not exercised by this check",
     ]
@@ -138,6 +138,11 @@ def run(rep, tier, seed):
                             key=lambda l: "program")
         if r:
             validate_stream(rep, name + "-validated", lines, r[0], True)
+    # analyze_recursive_functions = true: exact correspondence with the mirror coq/Ana/InterTDRec.v (proved sound:
+    # Props/Properties_C09_rec.v) + oracle on every answer of the implementation
+    lines = inter.gen(seed + 41, tier, "td-rec1")
+    vlib.run_stream(rep, "td-rec1", "inter", "inter", lines, oracle=inter.oracle, nontrivial=inter.nontrivial,
+                    key=lambda l: "program")
     # bounded calling contexts: correspondence (the model mirrors the join policy), oracle with triage
     lines = inter.gen(seed + 21, tier, "td-mcc")
     r = vlib.run_stream(rep, "td-mcc", "inter", "inter", lines, oracle=None, nontrivial=inter.nontrivial,
